@@ -60,6 +60,15 @@ def gen_case(rng, tier):
         op = rng.choice(["min", "max", "first", "last", "cummax", "shift"])
     if base == "bool" and op in ("rolling_max", "rolling_min", "shift"):
         op = "max"
+    if base == "int64" and op in ("sum", "cumsum", "mean") and rng.random() < 0.35:
+        # sums that pass exactly through the int64 minimum (the in-band null marker of timestamps) and come back
+        # into range: two values of -2**62 in one group, everything else positive
+        labs = [x for x in set(col) if x is not None and col.count(x) >= 2]
+        if labs:
+            g = rng.choice(sorted(labs))
+            raw = [rng.choice([1, 2, 7, 2**53 + 1]) for _ in range(n)]
+            i, j = rng.sample([k for k in range(n) if col[k] == g], 2)
+            raw[i] = raw[j] = -2**62
     if op in ("sum", "cumsum", "mean") and base in ("int64", "m8"):
         # the property speaks of sums within the 64-bit range: keep every sub-sum (any group, any prefix) representable
         # - as int64 for integers, as nanoseconds for durations (the canonical form the results are compared in)
